@@ -7,14 +7,21 @@ from common import hexs, unhexs, rng
 import valid as _valid
 
 FAMILY = "norm"
-HARNESS = {"source": "x_norm.c", "leak_clean": True}
+HARNESS = {"source": "x_norm.c", "exclude_objs": ["utils"], "leak_clean": True}
 RULE = ("quick: every BMP code point with a canonical decomposition, a case folding or a non-zero combining class, every Hangul "
         "syllable and jamo, lone surrogates (about 30 000 single code points); thorough: all 1 114 112 code points; plus seeded "
         "sequences of 2-6 such units (incl. U+0345, U+1E9E, U+0130, Hangul L/V/T, reordered marks); pairs of spellings (case "
         "variants, NFC / NFD, reordered marks, unrelated) created / looked up / re-created as block, frame and item; op sequences on "
         "tables and packets under variant keys; non-trivial = non-ASCII input; oracle: cif_normalize(x) = NFC(fold(NFD x)) from "
         "ICU primitives, idempotent, invariant under NFD/NFC of the input; found / duplicate iff the normal forms coincide; table "
-        "keys by NFC only, most recent spelling enumerated; every assumed law holds in ICU on the data")
+        "keys by NFC only, most recent spelling enumerated; every assumed law holds in ICU on the data.  Buffer level (`buf`): "
+        "cif_unicode_normalize (NFD / NFC x terminate), cif_fold_case, cif_normalize (with / without result pointer), "
+        "cif_normalize_name / _item_name / _table_index called with srclen = -1, the exact length, shorter prefixes, sources without "
+        "terminator and with embedded NULs, on expanding / contracting code points and engineered exact-fit / overflow lengths; the "
+        "allocator and the ICU entry points are interposed inside utils.c: oracle = result equals ICU's on the logical string, "
+        "terminator where promised, every ICU call's capacity within the block it writes to, nothing stored behind a block, at "
+        "most two attempts per stage, blocks balanced.  `icu`: ICU's capacity contract (the hypothesis CallContract) for "
+        "every capacity 0 .. length+2")
 
 INVALID = {"block": 12, "frame": 22, "item": 42}
 DUP = {"block": 11, "frame": 21, "item": 41}
@@ -129,6 +136,172 @@ def generate(seed, tier):
         ops.append("k")
         yield "norm map %s %s" % (what, " ".join(ops))
 
+    # ---- tables and packets THROUGH THE STORE: built under non-NFC / reordered / case-variant spellings, stored in a managed CIF
+    # (set_value / loop packet), read back (get_value / packet iterator), and only then probed under every equivalent and
+    # inequivalent spelling; then replaced and removed through equivalent spellings
+    for _ in range(700 if tier == "quick" else 12000):
+        yield store_seq(r, namepool)
+    # ---- buffer level -------------------------------------------------------------------------------------------------
+    for req in gen_buf(r, tier, pool):
+        yield req
+
+
+def store_seq(r, namepool):
+    what = r.choice(["tbl", "tbl", "pkt"])
+    special = [c for c in SPECIAL if _valid.cif_char_ok(c, False)]
+    nbase = r.randrange(1, 4)
+    base = [rand_word(r, namepool if r.random() < 0.5 else special, r.randrange(1, 4)) for _ in range(nbase)]
+    fam = [variants(r, w) for w in base]                       # per base word: equivalent and inequivalent spellings
+    pre = "_" if what == "pkt" else ""
+    hk = lambda k: hexs(to_units(pre + k))
+    ops, tag = [], [0x30]
+
+    def nxt():
+        tag[0] += 1
+        return "%04x" % tag[0]
+    if what == "pkt" and r.random() < 0.35:                    # the packet starts from cif_packet_create(names)
+        pick = [r.choice(vs[:9]) for vs in fam]
+        if r.random() < 0.25:
+            pick.append(r.choice(r.choice(fam)[:9]))           # possibly a second spelling of one item: CIF_DUP_ITEMNAME
+        if r.random() < 0.1:
+            pick.append(r.choice(["a b", ""]))                 # an invalid name: CIF_INVALID_ITEMNAME
+        ops.append("N:" + ",".join(hk(k) for k in pick))
+        ops.append("k")
+    for vs in fam:                                             # build: one or two sets per base word, under unusual spellings
+        for _ in range(r.randrange(1, 3)):
+            ops.append("s:%s:%s" % (hk(r.choice(vs[:3] + vs[3:9])), nxt()))
+    if what == "tbl":
+        for k in r.sample(["", " ", "a b", "\t", "A", "a"], r.randrange(0, 3)):
+            ops.append("s:%s:%s" % (hk(k), nxt()))
+    store = (lambda: r.choice(["S", "P", "C"])) if what == "tbl" else (lambda: "P")
+    if r.random() < 0.15:
+        ops.append("k")
+    ops.append(store())
+    ops.append("k")
+    for vs in fam:                                             # probe under every spelling
+        for k in vs:
+            ops.append("g:%s" % hk(k))
+    vs = r.choice(fam)                                         # replace through an equivalent spelling: count unchanged, new spelling
+    ops.append("s:%s:%s" % (hk(r.choice(vs[:9])), nxt()))
+    ops.append("k")
+    ops.append("g:%s" % hk(r.choice(vs[:3])))
+    if r.random() < 0.5:
+        ops.append(store())
+        ops.append("k")
+        ops.append("g:%s" % hk(r.choice(vs)))
+    vs = r.choice(fam)                                         # remove through an equivalent spelling
+    ops.append("r:%s" % hk(r.choice(vs[:9])))
+    ops.append("k")
+    ops.append("g:%s" % hk(r.choice(vs[:3])))
+    if r.random() < 0.3:
+        ops.append(store())
+        ops.append("k")
+    return "norm map %s %s" % (what, " ".join(ops))
+
+
+_expanding = None
+
+
+def len16(s):
+    return sum(2 if ord(ch) > 0xffff else 1 for ch in s)
+
+
+def expanding():
+    """code points whose NFD, case folding or NFC has a different UTF-16 length than the code point itself"""
+    global _expanding
+    if _expanding is None:
+        out = []
+        for cp in interesting():
+            if 0xd800 <= cp <= 0xdfff:
+                continue
+            c = chr(cp)
+            if len16(unicodedata.normalize("NFD", c)) != 1 or len16(c.casefold()) != 1 or len16(unicodedata.normalize("NFC", c)) != 1:
+                out.append(cp)
+        _expanding = out + [0x1d15e, 0x1d1bb, 0x2f800, 0x10400, 0x1e900, 0x16e40]
+    return _expanding
+
+
+BUF_FNS = ["nfd0", "nfd1", "nfc0", "nfc1", "fold", "norm", "norm0", "name", "item", "tbl"]
+
+
+def buf_reqs(r, units, fns=None):
+    """the requests for one source string: every function under several source-length conventions"""
+    n = len(units)
+    for fn in (fns or BUF_FNS):
+        if fn in ("name", "item", "tbl"):
+            u = ([0x5f] + units) if fn == "item" else units
+            if 0 in u:
+                continue
+            yield "norm buf %s z -1 %s" % (fn, hexs(u))
+            continue
+        convs = [("z", -1)] if 0 not in units else []
+        convs += [("z", n), ("n", n)]
+        if n:
+            k = r.randrange(0, n)
+            convs += [(r.choice("zn"), k)]
+        if 0 not in units:
+            convs.append(("z", n + 1))                  # the terminator itself is part of the logical string
+        for mode, ln in (convs if fns is None else convs[:3]):
+            yield "norm buf %s %s %d %s" % (fn, mode, ln, hexs(units))
+
+
+def gen_buf(r, tier, pool):
+    exp = expanding()
+    quick = tier == "quick"
+    fixed = [[], [0x41], [0xc5], [0xdf], [0xfb03], [0x1e9e], [0x958], [0xfb2c], [0x390], [0x1fb7], [0x41, 0, 0x42], [0, 0xc5],
+             [0xc5, 0xdf], [0x41, 0x30a], [0x1100, 0x1161, 0x11a8], [0xac01], [0xd834, 0xdd5e], [0xd800], [0xdc00, 0x41],
+             [0x130], [0x149], [0x1f0], [0xfb17], [0x3a3, 0x345], [0x1f88], [0x212b], [0x20], [0x41, 0x20], [0x5f], [1]]
+    for u in fixed:
+        for q in buf_reqs(r, u):
+            yield q
+    for cp in (r.sample(exp, 300) if quick else exp):
+        for q in buf_reqs(r, units_of(cp), fns=r.sample(BUF_FNS, 3) if quick else None):
+            yield q
+    # engineered lengths: k plain units + expanding characters, so that a stage's result is n, n+1 (exact fit), n+2 … units
+    for _ in range(500 if quick else 6000):
+        k = r.choice([0, 1, 2, 3, 7, 15, 16, 17, 31, 63, 64, 65, 127, 255, 256, 1000]) if r.random() < 0.5 else r.randrange(0, 40)
+        base = [r.choice([0x61, 0x41, 0x7a, 0x5f, 0x31, 0xe9, 0x3b1])] * k
+        extra = []
+        for _ in range(r.randrange(0, 4)):
+            extra += units_of(r.choice(exp))
+        u = base + extra
+        r.shuffle(u) if r.random() < 0.3 and not any(0xd800 <= x <= 0xdfff for x in u) else None
+        for q in buf_reqs(r, u, fns=r.sample(BUF_FNS, 2)):
+            yield q
+    for _ in range(300 if quick else 5000):
+        n = r.randrange(2, 9)
+        u = []
+        for _ in range(n):
+            u += units_of(r.choice(SPECIAL) if r.random() < 0.4 else r.choice(exp if r.random() < 0.5 else pool))
+        if r.random() < 0.1:
+            u.insert(r.randrange(0, len(u) + 1), 0)
+        for q in buf_reqs(r, u, fns=r.sample(BUF_FNS, 2)):
+            yield q
+    # ICU's capacity contract, every capacity from 0 to length + 2
+    strs = [[], [0x41], [0xc5], [0xfb03], [0x958], [0x41, 0, 0x42], [0xd834, 0xdd5e], [0xc5, 0xdf, 0x41]]
+    for cp in r.sample(exp, 60 if quick else 600):
+        strs.append(units_of(cp))
+    for _ in range(60 if quick else 800):
+        u = []
+        for _ in range(r.randrange(1, 7)):
+            u += units_of(r.choice(exp) if r.random() < 0.6 else r.choice(pool))
+        strs.append(u)
+    for u in strs:
+        w = "".join(chr(x) for x in u)
+        try:
+            w = bytes(b for x in u for b in (x & 0xff, x >> 8)).decode("utf-16-le", "surrogatepass")
+        except Exception:
+            pass
+        for fn in ("nfd", "nfc", "fold"):
+            top = max(len(u) * 3, 4) + 2 if quick else len(u) * 18 + 3
+            try:
+                ref = {"nfd": unicodedata.normalize("NFD", w), "nfc": unicodedata.normalize("NFC", w), "fold": w.casefold()}[fn]
+                top = len16(ref) + 2
+            except Exception:
+                pass
+            for cap in range(0, top + 1):
+                yield "norm icu %s %d %s" % (fn, cap, hexs(u))
+
 
 def model_request(req, impl):
     g = impl.partition(" | ")[2]
@@ -158,6 +331,13 @@ def agree(impl, model, req=None):
     h = head(impl).split()
     if req and req.split()[1] == "cp":
         return h[:3] == model.split()
+    if req and req.split()[1] == "buf":
+        # compared: result code, result length, result units, terminator (where promised).  The capacity of the result block and the trace of
+        # allocator / ICU calls are NOT compared (no property fixes them: a different first-buffer guess is a harmless rewrite);
+        # the oracle checks the safety conditions on the implementation's own trace.
+        promised = req.split()[2] in ("nfd1", "nfc1")           # a terminator is an observable only where one is promised
+        keep = lambda toks: [x for x in toks if not (x.startswith("tr=") or x.startswith("cap=") or (x.startswith("term=") and not promised))]
+        return keep(h) == keep(model.split())
     return h == model.split()
 
 
@@ -167,6 +347,10 @@ LAW_NAMES = ["nfd_nfc (NFD(NFC y) = NFD y)", "nfc_nfd (NFC(NFD y) = NFC y)", "fo
 def oracle(req, impl):
     t = req.split()
     h = head(impl).split()
+    if t[1] == "buf":
+        return oracle_buf(t, impl)
+    if t[1] == "icu":
+        return oracle_icu(t, impl)
     if not h or h[0] != "nm":
         return None
     g, extra = graph(impl)
@@ -214,8 +398,42 @@ def oracle(req, impl):
             return "answer has %d results for %d operations" % (len(res), len(ops))
         for op, got in zip(ops, res):
             p = op.split(":")
-            if p[0] == "k":
-                want = "k=[%s]" % ",".join(sorted(sp for sp, _ in table.values()))
+            if p[0] == "C":
+                want = "C=0"                                   # a clone is indistinguishable from the table it was made of
+            elif p[0] == "N":
+                nms = p[1].split(",")
+                if not all(_valid.spec_name(unhexs(x), True) for x in nms):
+                    want = "N=%d" % INVALID_ITEMNAME
+                elif len({g[x][2] for x in nms}) != len(nms):
+                    want = "N=41"                              # CIF_DUP_ITEMNAME: two spellings of one item
+                else:
+                    want = "N=0"
+                    table = {g[x][2]: (x, "~") for x in nms}   # every item holds the unknown value
+            elif p[0] in ("S", "P"):
+                # through a managed CIF and back: the read-back object must be indistinguishable as far as the property speaks -
+                # a TABLE keeps keys, spellings and values; a PACKET from an iterator keeps the items (matched by normalised name),
+                # the spelling under which its names enumerate is not fixed by any property: the entered one or the normal form
+                if not is_tbl and not table:
+                    want = "P=skip"
+                else:
+                    want = p[0] + "=0/0"
+                    if not is_tbl:
+                        table = {nf: ((sp if isinstance(sp, tuple) else (sp,)) + (nf,), tg) for nf, (sp, tg) in table.items()}
+            elif p[0] == "k":
+                if any(isinstance(sp, tuple) for sp, _ in table.values()):
+                    names = got[3:-1].split(",") if got.startswith("k=[") and got.endswith("]") and len(got) > 4 else []
+                    left = dict(table)
+                    ok_ = got.startswith("k=[") and names == sorted(names)
+                    for nm_ in names:
+                        hit = [nf for nf, (sp, _) in left.items() if nm_ in (sp if isinstance(sp, tuple) else (sp,))]
+                        if len(hit) != 1:
+                            ok_ = False
+                            break
+                        del left[hit[0]]
+                    want = got if ok_ and not left else "k=[one spelling (entered or normalised) per item: %s]" % ",".join(
+                        "|".join(sp) if isinstance(sp, tuple) else sp for sp, _ in table.values())
+                else:
+                    want = "k=[%s]" % ",".join(sorted(sp for sp, _ in table.values()))
             else:
                 u = unhexs(p[1])
                 ok = _valid.spec_key(u) if is_tbl else _valid.spec_name(u, True)
@@ -241,6 +459,121 @@ def oracle(req, impl):
     return None
 
 
+def refs(impl):
+    """{(fn letter, x): f x} from the executor's ICU observations"""
+    out = {}
+    for tok in impl.partition(" | ")[2].split():
+        p = tok.split(":")
+        if len(p) == 3 and p[0] in "nfc":
+            out[(p[0], p[1])] = p[2]
+    return out
+
+
+def hx(units):
+    return hexs(units)
+
+
+def cstr_hex(h):
+    u = unhexs(h)
+    return hexs(u[:u.index(0)] if 0 in u else u)
+
+
+def oracle_buf(t, impl):
+    fn, mode, srclen, mem = t[2], t[3], int(t[4]), unhexs(t[5])
+    hd = impl.split(" |")[0].split()
+    if not hd or hd[0] != "nb":
+        return None
+    if "icu-failed" in impl:
+        return "executor / ICU set-up failed: " + impl[:120]
+    f = dict(x.split("=", 1) for x in hd[1:])
+    block = mem + ([0] if mode == "z" else [])
+    x = block[:srclen] if srclen >= 0 else block[:block.index(0)]
+    cs = block[:block.index(0)] if 0 in block else block
+    R = refs(impl)
+    tr = [] if f["tr"] == "-" else f["tr"].split(",")
+    for e in tr:
+        if e.startswith("!"):
+            return "memory safety: %s (trace %s)" % (e[1:], f["tr"])
+    ncalls = sum(1 for e in tr if e.startswith("i"))
+    live = sum(1 for e in tr if e.startswith("m")) - sum(1 for e in tr if e == "f")
+    # expected verdict / result, from the CIF rules (names) and ICU's own results (strings)
+    if fn in ("name", "item"):
+        if not _valid.spec_name(cs, fn == "item"):
+            want_rc = {"name": 12, "item": 42}[fn]
+            return None if f["rc"] == str(want_rc) and not tr else "invalid name: rc=%s trace=%s, expected %d and no allocation" % (f["rc"], f["tr"], want_rc)
+    if fn == "tbl" and not _valid.spec_key(cs):
+        return None if f["rc"] == "73" and not tr else "invalid table key: rc=%s trace=%s, expected 73 and no allocation" % (f["rc"], f["tr"])
+    if f["rc"] != "0":
+        return "%s failed with code %s on a source inside its block" % (fn, f["rc"])
+    hxs = hx(x)
+    if fn[:3] in ("nfd", "nfc") or fn == "fold":
+        key = {"nfd": "n", "nfc": "c", "fol": "f"}[fn[:3]]
+        ref = R.get((key, hxs))
+        if ref is None:
+            return "executor did not report ICU's result for the logical string"
+        if f["out"] != ref or int(f["len"]) != len(unhexs(ref)):
+            return "%s of the logical string %s: got %s (length %s), ICU gives %s" % (fn, hxs, f["out"], f["len"], ref)
+        if fn.endswith("1") and f["term"] != "1":
+            return "terminator requested but result[length] is not a NUL inside the block"
+        if int(f["cap"]) < int(f["len"]):
+            return "result longer than its block"
+        if not 1 <= ncalls <= 2:
+            return "%d ICU calls in one stage (trace %s)" % (ncalls, f["tr"])
+        if live != 1:
+            return "blocks allocated minus released = %d, expected 1 (trace %s)" % (live, f["tr"])
+        return None
+    if fn == "tbl":
+        ref = R.get(("c", hxs))
+        want = None if ref is None else cstr_hex(ref)
+        stages = 1
+    else:
+        d = R.get(("n", hxs))
+        fo = R.get(("f", d)) if d is not None else None
+        ref = R.get(("c", fo)) if fo is not None else None
+        want = None if ref is None else cstr_hex(ref)
+        stages = 3
+    if want is None:
+        return "executor did not report ICU's results for the stages"
+    if fn == "norm0":
+        if f["out"] != "~" or live != 0:
+            return "normalized == NULL: blocks allocated minus released = %d (trace %s)" % (live, f["tr"])
+    else:
+        if f["out"] != want:
+            return "%s of the logical string %s: C string at the result is %s, ICU's NFC(fold(NFD)) / NFC gives %s" % (fn, hxs, f["out"], want)
+        if int(f["cap"]) < len(unhexs(ref)) + 1:
+            return "result block of %s units cannot hold the %d units + terminator" % (f["cap"], len(unhexs(ref)))
+        if live != 1:
+            return "blocks allocated minus released = %d, expected 1 (trace %s)" % (live, f["tr"])
+    if not stages <= ncalls <= 2 * stages:
+        return "%d ICU calls for %d stage(s) (trace %s)" % (ncalls, stages, f["tr"])
+    return None
+
+
+def oracle_icu(t, impl):
+    fn, cap, x = t[2], int(t[3]), t[4]
+    hd = impl.split(" |")[0].split()
+    if not hd or hd[0] != "ic":
+        return None
+    f = dict(y.split("=", 1) for y in hd[1:])
+    ref = refs(impl).get(({"nfd": "n", "nfc": "c", "fold": "f"}[fn], x))
+    if ref is None:
+        return "executor / ICU set-up failed: " + impl[:120]
+    n = len(unhexs(ref))
+    B = "BROKEN ASSUMPTION: ICU violates the capacity contract (CallContract): "
+    if f["guard"] != "1":
+        return B + "%s wrote at or behind dest[capacity] (capacity %d)" % (fn, cap)
+    if int(f["len"]) != n:
+        return B + "%s returned length %s, the result has %d units (capacity %d)" % (fn, f["len"], n, cap)
+    want = "z" if n < cap else ("w" if n == cap else "o")
+    if f["st"] != want:
+        return B + "%s with capacity %d for a result of %d units reported status %s, contract says %s" % (fn, cap, n, f["st"], want)
+    if want != "o" and f["w"] != ref:
+        return B + "%s wrote %s, the result is %s" % (fn, f["w"], ref)
+    if want == "z" and f["nul"] != "1":
+        return B + "%s did not terminate a result that fits with room to spare" % fn
+    return None
+
+
 def nontrivial(req, impl):
     return any(len(x) >= 4 and any(int(x[i:i + 4], 16) > 0x7f for i in range(0, len(x) - 3, 4))
                for tok in req.split()[2:] for x in tok.split(":") if all(c in "0123456789abcdef" for c in x) and len(x) % 4 == 0 and x)
@@ -254,6 +587,13 @@ def classify(req, impl):
         if not e:
             return "cp/?"
         return "cp/" + ("unchanged" if e[2] == t[2] else ("fold-only" if e[0] == t[2] and e[3] == t[2] else "decomposing"))
+    if t[1] == "buf":
+        f = dict(x.split("=", 1) for x in impl.split(" |")[0].split()[1:] if "=" in x)
+        pat = "".join(e.rsplit(":", 1)[1] for e in f.get("tr", "-").split(",") if e.startswith("i"))
+        return "buf/%s/%s" % (t[2], pat or ("rc" + f.get("rc", "?")))
+    if t[1] == "icu":
+        f = dict(x.split("=", 1) for x in impl.split(" |")[0].split()[1:] if "=" in x)
+        return "icu/%s/%s" % (t[2], f.get("st", "?"))
     return t[1] + "/" + t[2]
 
 
